@@ -15,6 +15,7 @@ ASSUMPTIONS = [
     "every event names an instrument the engine was built with (the code panics otherwise; harness and model both report `panic`)",
     "event times are after the Unix epoch (the default OrderBookL1 carries the epoch as last_update_time), trade prices are finite f64 that Decimal::from_f64 represents exactly",
     "exact rational arithmetic: Decimal rounding of the L1 mid / entry average is compared to 1e-18, not modelled",
+    "reading of the text: 'the instrument's current price' is InstrumentDataState::price() after the event was processed, and 'newer market data' is any market item for the instrument that arrives after the fill (arrival order, not exchange time): once a price is held, a stale or price-less item also re-evaluates the estimate at price(), which may be older than the last fill's price",
     "trading disabled (Engine::process generates no orders); GlobalData = DefaultGlobalData (no-op)",
 ]
 SOURCE_FILES = ["barter/src/engine/state/mod.rs", "barter/src/engine/state/instrument/mod.rs", "barter/src/engine/state/position.rs",
@@ -56,7 +57,11 @@ def signature(ops, k, key, impl_line, spec_line):
         except (ValueError, IndexError, ZeroDivisionError):
             continue
     if last == "opening_fill":
-        return "clause=after_fill/opening_fill"
+        # the known finding is exactly: the code stores 0 where the estimate is non-zero
+        it = impl_line.split()
+        if len(it) == 2 and it[1] in ("~0", "0"):
+            return "clause=after_fill/opening_fill"
+        return "clause=after_fill/opening_fill/value_not_zero"
     if last == "increase_or_reduce":
         return "clause=after_fill/increase_or_reduce"
     if last == "market":
